@@ -47,14 +47,15 @@ def mk(bindings, extra_impls=()):
     for b in list(bindings) + [(x[1], None, None) for x in extra_impls]:
         if b[0] not in names:
             names.append(b[0])
+    bindings = [tuple(b) + (None,) * (4 - len(b)) for b in bindings]
     structs = ([IN] if "G" in names else []) + [(n, POOL[n]) for n in names]
     enums = {"E5": E5} if "C" in names else {}
     impls = []
-    for sn, sid, bus in bindings:
+    for sn, sid, bus, alias in bindings:
         kv = {"id": sid}
         if bus is not None:
             kv["bus"] = bus
-        impls.append(("can", sn, None, kv, []))
+        impls.append(("can", sn, alias, kv, []))
     impls += list(extra_impls)
     return Schema(structs=structs, enums=enums, impls=impls, top=names[0])
 
@@ -70,6 +71,8 @@ def c18_family(tier, sd=0):
         mk([("D", 300, "CAN1"), ("C", 3, "_"), ("H", 30, "CAN1")]),
         mk([("Msg2", 77, "c"), ("EngineStatus", 78, "pt"), ("B", 79, "Msg2")]),
         mk([("A", 17, "can1"), ("B", 17, "CAN1"), ("H", 18, "Can1")]),          # bus names that differ only in letter case
+        # renamed bindings ('impl can for A as Alias'): the message name is the binding's, the payload type the struct's
+        mk([("A", 40, "b1", "Alias"), ("A", 41, "b1"), ("B", 42, "b2", "Bee"), ("K", 43, "b2", "Kay")]),
     ]
     if tier == "thorough":
         rng = random.Random(sd)
@@ -105,8 +108,13 @@ def c18_family(tier, sd=0):
 
 
 def bindings_of(schema: Schema):
-    """[(name, id, bus|None)] of the CAN bindings, in declaration order."""
-    return [(st, kv["id"], kv.get("bus")) for proto, st, name, kv, sigs in schema.impls if proto == "can"]
+    """[(binding name, id, bus|None)] of the CAN bindings, in declaration order (the name is the 'as' alias if there is one)."""
+    return [(name or st, kv["id"], kv.get("bus")) for proto, st, name, kv, sigs in schema.impls if proto == "can"]
+
+
+def binding_types(schema: Schema):
+    """binding name -> struct it binds."""
+    return {(name or st): st for proto, st, name, kv, sigs in schema.impls if proto == "can"}
 
 
 def tag_of(bus: str):
@@ -222,11 +230,13 @@ def c18_case(args):
         tmo = 240000 if tier == "quick" else 600000
         reached = set()
 
+        type_of = binding_types(schema)
         for sn, sid, bus in binds:
             if bus is None:
                 continue        # the property speaks about bindings that declare a bus
-            sch1 = dataclasses.replace(schema, top=sn)
-            T = ("struct", sn)
+            st = type_of[sn]    # sn is the binding's name (what Encode is called with / Decode answers), st its struct
+            sch1 = dataclasses.replace(schema, top=st)
+            T = ("struct", st)
             inst = Inst(sch1, [0], tag=f"{sn}.")
             canon = refspec.canon_bytes(sch1, T, inst.value)
             tag = tag_of(bus)
@@ -244,7 +254,7 @@ def c18_case(args):
             outp = m.alloc(32)
             _put(m, outp, [0x55] * 32)
             cap = []
-            install_json_models(m, mod, structs, {sn: argp}, cap)
+            install_json_models(m, mod, structs, {st: argp}, cap)
             snap, brk = dict(m.mem), m.brk
             eng = Engine(timeout_ms=tmo, max_paths=200)
 
@@ -346,7 +356,7 @@ def c18_case(args):
                         viol, why = z3.BoolVal(True), "reported as unknown"
                     elif name != sn:
                         viol, why = z3.BoolVal(True), f"decoded as {name!r}"
-                    elif len(dumps) != 1 or dumps[0][1] != sn:
+                    elif len(dumps) != 1 or dumps[0][1] != st:
                         viol, why = z3.BoolVal(True), f"value converted from {[c[1] for c in dumps]}"
                     else:
                         exp = []
@@ -458,7 +468,11 @@ def c18_dyn_case(args):
     known = Known("C18")
     binds = bindings_of(schema)
     desc = "; ".join(f"{n}(id={i}, bus={b!r})" for n, i, b in binds)
-    structs = [n for n, _ in schema.structs if n in POOL]
+    type_of = binding_types(schema)
+    # (binding name, struct) of the bindings that declare a bus; a struct bound several times appears once per binding
+    structs = [(bn, type_of[bn]) for bn, _, bus in binds if bus is not None and type_of[bn] in POOL]
+    seen_ = set()
+    structs = [x for x in structs if not (x[0] in seen_ or seen_.add(x[0]))]
     base = {"schema_text": schema.text(), "property": "C18", "structs": structs,
             "schema": {"structs": schema.structs, "enums": schema.enums, "top": schema.top}}
     with Scratch() as d:
@@ -522,13 +536,13 @@ def c18_dyn_case(args):
                 raise EngineLimit("dump size is symbolic")
             return ("ret", r), name, [m.mem[areap + i] for i in range(an)]
 
-        for which, sn in enumerate(structs):
+        for which, (sn, st) in enumerate(structs):
             b = [x for x in binds if x[0] == sn and x[2] is not None]
             if not b:
                 continue
             _, sid, bus = b[0]
-            sch1 = dataclasses.replace(schema, top=sn)
-            T = ("struct", sn)
+            sch1 = dataclasses.replace(schema, top=st)
+            T = ("struct", st)
             inst = Inst(sch1, [0], tag=f"{sn}.")
             enum_ok = [z3.Or(*[inst.vars[p_].e == v for _, v in schema.enums[en]]) for p_, (k_, en) in inst.kinds.items() if k_ == "enum"]
             assume = inst.assume + enum_ok
@@ -588,7 +602,7 @@ def c18_dyn_case(args):
                 res["inconclusive"].append(f"{desc}|dynamic|{sn}|encode: engine limit: {e}")
             # one witness per schema also runs natively at -O0 under AddressSanitizer/UBSan: undefined behaviour that the
             # optimiser removes from the -O1 IR the interpreter sees (a dead out-of-bounds copy) still shows there
-            if sn == max((x[0] for x in binds if x[2] is not None and x[0] in structs), key=len):
+            if sn == max((x[0] for x in structs), key=len):
                 ob = f"{desc}|dynamic|{sn}|encode|native-O0-sanitized"
                 res["obligations"].append(ob)
                 r_, mdl_ = eng.check(pc=list(assume))
@@ -684,7 +698,7 @@ def c18_dyn_case(args):
         except EngineLimit as e:
             res["inconclusive"].append(f"{desc}|dynamic|any-frame: engine limit: {e}")
         finish_engine(res, eng)
-        want = {(sn, k) for sn, _, bus in binds if bus is not None and sn in structs for k in ("encode", "decode")} | {("any", "x")}
+        want = {(sn, k) for sn, _ in structs for k in ("encode", "decode")} | {("any", "x")}
         res["vacuity"]["dynamic: entry points reached to their end"] = len(want & reached)
         res["vacuity"]["dynamic: entry points never reached"] = len(want - reached)
         if want - reached and not res["violations"] and not res["inconclusive"]:
@@ -731,7 +745,7 @@ def run_c18(tier: str) -> int:
                        "a null json is handed through Encode; its copies and destructors are interpreted",
                        "oracle: refspec canonical bytes; bus tag = the bus name followed by NUL bytes up to 4",
                        "counterexamples are replayed through fcp::can::Can and real JSON, compiled with clang++ and g++"]
-    dyn = fam if tier == "thorough" else [fam[1], fam[2], fam[4], fam[7]]
+    dyn = fam if tier == "thorough" else [fam[1], fam[2], fam[4], fam[7], fam[9]]
     cases = [("dyn", s, tier) for s in dyn] + [("static", s, tier) for s in fam]
     for r in pmap(_dispatch, cases):
         rep.merge(r)
